@@ -101,7 +101,9 @@ namespace GeographicLib {
     // The bands are reckoned in include their southern edges.
     static int LatitudeBand(real lat) {
       using std::floor;
-      int ilat = int(floor(lat));
+      // Limit the latitude before converting to an int (NaN becomes -90)
+      real flat = floor(lat);
+      int ilat = !(flat > -90) ? -90 : (flat < 90 ? int(flat) : 90);
       return (std::max)(-10, (std::min)(9, (ilat + 80)/8 - 10));
     }
     // Return approximate latitude band number [-10, 10) for the given northing
